@@ -112,10 +112,10 @@ func (c *flowCtx) path(v ssa.Value) string {
 		}
 		return x.Op.String() + c.path(x.X)
 	case *ssa.Field:
-		_, s := structOf(x.X.Type())
+		sn, s := structOf(x.X.Type())
 		name := "?"
 		if s != nil {
-			name = s.Field(x.Field).Name()
+			name = pinnedFieldName(sn, s, x.Field)
 		}
 		return c.path(x.X) + "." + name
 	case *ssa.FieldAddr:
@@ -236,10 +236,10 @@ func shortQ(p *types.Package) string {
 func (c *flowCtx) addr(a ssa.Value) string {
 	switch x := a.(type) {
 	case *ssa.FieldAddr:
-		_, s := structOf(x.X.Type())
+		sn, s := structOf(x.X.Type())
 		name := "?"
 		if s != nil {
-			name = s.Field(x.Field).Name()
+			name = pinnedFieldName(sn, s, x.Field)
 		}
 		// field of a local struct literal: use the stored value
 		if al, ok := x.X.(*ssa.Alloc); ok {
@@ -341,7 +341,7 @@ func (c *flowCtx) literal(a *ssa.Alloc) (string, bool) {
 // litFields returns the values stored into the fields of a struct allocated at a,
 // provided a is a struct alloc whose fields are each stored at most once.
 func (w *World) litFields(a *ssa.Alloc) (map[string]ssa.Value, bool) {
-	_, s := structOf(a.Type())
+	sn, s := structOf(a.Type())
 	if s == nil || a.Referrers() == nil {
 		return nil, false
 	}
@@ -359,7 +359,7 @@ func (w *World) litFields(a *ssa.Alloc) (map[string]ssa.Value, bool) {
 		}
 		for _, rr := range *fa.Referrers() {
 			if st, ok := rr.(*ssa.Store); ok && st.Addr == fa {
-				name := s.Field(fa.Field).Name()
+				name := pinnedFieldName(sn, s, fa.Field)
 				if _, dup := out[name]; dup {
 					return nil, false
 				}
